@@ -354,9 +354,11 @@ func recvN(c net.Conn, id uint32, seq0 uint32, n int, d time.Duration) string {
 	p := newStreamParser(id)
 	p.next[0] = seq0
 	done := make(chan string, 1)
+	var got atomic.Int64 // the reader goroutine may still be running when the timeout below reports
 	go func() {
 		buf := make([]byte, muxFrameMax)
 		for len(p.msgs) < n {
+			got.Store(int64(len(p.msgs)))
 			k, err := c.Read(buf)
 			if err != nil {
 				done <- fmt.Sprintf("read error after %d of %d messages: %v", len(p.msgs), n, err)
@@ -373,7 +375,7 @@ func recvN(c net.Conn, id uint32, seq0 uint32, n int, d time.Duration) string {
 	case r := <-done:
 		return r
 	case <-time.After(d):
-		return fmt.Sprintf("only %d of %d messages arrived within %s", len(p.msgs), n, d)
+		return fmt.Sprintf("only about %d of %d messages arrived within %s", got.Load(), n, d)
 	}
 }
 
@@ -607,11 +609,21 @@ func c10Handles(g *rand.Rand, res *ev.Result, trunk string, tag string) {
 			}
 		}
 		close(stop)
-		m1.Close()
-		m2.Close()
-		churn.Wait()
 		if bad != "" {
 			viol("stalled", fmt.Sprintf("%d x %d bytes in each direction while both ends open and close other connections: %s", nmsg, size, bad))
+		}
+		// a multiplexer that is wedged may not even close: never wait for it without a bound
+		cd := make(chan struct{})
+		go func() { defer close(cd); m1.Close(); m2.Close(); churn.Wait() }()
+		if rig.Await(cd, 5*time.Second, 20*time.Second) == "hang" {
+			a3.Close()
+			b3.Close()
+			if bad == "" {
+				viol("stalled", "closing the multiplexers after the transfer did not return")
+			}
+			return
+		}
+		if bad != "" {
 			return
 		}
 		res.Seen("handles|traffic-with-churn")
